@@ -24,6 +24,7 @@ def reset_stats():
 
 
 R = z3.RealSort()
+INT_BOUND = 12
 _UFS = {}
 
 
@@ -420,7 +421,21 @@ class Sym:
             return Sym(rv(round(c)))
         return Sym(UF('round')(self.e))
     round = rint
-    __round__ = lambda self, n=None: self.rint()   # noqa
+
+    def __round__(self, nd=None):
+        """builtin round(): integer concretisation by forking over the feasible values 0..INT_BOUND (half-even)"""
+        c = const_value(self.e)
+        if c is not None:
+            return round(c)
+        x = self.e
+        half = z3.RealVal('1/2')
+        for n in range(0, INT_BOUND + 1):
+            cond = z3.And(x > n - half, x < n + half)
+            if n % 2 == 0:
+                cond = z3.Or(cond, x == n + half, x == n - half)
+            if cur().decide(cond):
+                return n
+        raise Unsupported(f'round(): value outside 0..{INT_BOUND}')
 
     def item(self):
         return self
@@ -534,6 +549,12 @@ class SArr(np.ndarray):
 
     def item(self, *a):
         return np.ndarray.item(self, *a)
+
+    def numpy(self):
+        return self
+
+    def detach(self):
+        return self
 
 
 def sarr(data):
